@@ -5,6 +5,7 @@ Prints one line per (seed, property): exit code and VIOLATION lines."""
 import argparse, json, os, shutil, subprocess, sys, re
 from concurrent.futures import ThreadPoolExecutor
 VERIF = os.path.dirname(os.path.dirname(os.path.abspath(__file__)))
+RESULTS = []
 
 def claimed():
     m = json.load(open(os.path.join(VERIF, "MANIFEST.json")))
@@ -25,6 +26,9 @@ def run_one(seed_dir, name, props, tier):
             r = subprocess.run([os.path.join(VERIF, "check"), p, "--tier", tier], cwd=VERIF, env=env, capture_output=True, text=True)
             lines = [l for l in r.stdout.splitlines() if l.startswith(("VIOLATION", "CHECKER-ERROR", "KNOWN-FINDING"))]
             und = sum(l.startswith("UNDECIDED") for l in r.stdout.splitlines())
+            viol = sorted({re.sub(r"-[0-9a-f]{10}\.json.*$", "", l.split("replay=replays/")[1]) for l in lines if l.startswith("VIOLATION") and "replay=replays/" in l})
+            RESULTS.append({"change": name, "property": p, "exit": r.returncode, "undecided": und, "violated_obligations": viol,
+                            "no_failing_input_found": sum("no-failing-input-found" in l for l in lines)})
             out.append((name, p, f"exit={r.returncode} undecided={und} " + " | ".join(l[:110] for l in lines[:3])))
         return out
     finally:
@@ -35,6 +39,8 @@ def main():
     ap.add_argument("--props", default="target")
     ap.add_argument("--tier", default="quick")
     ap.add_argument("--dir", default=os.path.join(VERIF, "seeded"))
+    ap.add_argument("--json", default=None, help="write the full result matrix to this file")
+    ap.add_argument("--workers", type=int, default=6)
     ap.add_argument("ids", nargs="*")
     a = ap.parse_args()
     a.dir = os.path.abspath(a.dir)
@@ -66,10 +72,12 @@ def main():
             props = [p for p in a.props.split(",") if p in cl]
         if props:
             jobs.append((d, name, props))
-    with ThreadPoolExecutor(max_workers=6) as ex:
+    with ThreadPoolExecutor(max_workers=a.workers) as ex:
         for res in ex.map(lambda j: run_one(j[0], j[1], j[2], a.tier), jobs):
             for name, p, txt in res:
                 print(f"{name:12s} {p:4s} {txt}")
+    if a.json:
+        json.dump(sorted(RESULTS, key=lambda r: (r["change"], r["property"])), open(a.json, "w"), indent=1)
 
 if __name__ == "__main__":
     main()
